@@ -318,6 +318,20 @@ let run_applyb () =
   | Ok (ParseErr e) -> "ERR " ^ err_name e
   | Panic -> "PANIC" | Diverge -> "DIVERGE"
 
+(* gen <c> <hexk0|-> <n> {<hexrem|-> <hexadd|-> <hexkeep|->}*  : the specification-level diff generator
+   (DiffGen.hunks_of) on a script; blobs are split into lines *)
+let run_gen () =
+  let c = int () in
+  let blob () = split_lines (bytes_of_ints (hexbytes ())) in
+  let k0 = blob () in
+  let n = int () in
+  let steps = times n (fun () -> let r = blob () in let a = blob () in let k = blob () in ({ c_rem = r; c_add = a }, k)) in
+  let hs = hunks_of_B (nat_of_int c) k0 steps in
+  String.concat "" (List.map (fun h ->
+    Printf.sprintf " <%s %s %d %d R[%s] A[%s]>" (string_of_z h.h_rline) (string_of_z h.h_aline)
+      (int_of_nat h.h_pre) (int_of_nat h.h_suf)
+      (String.concat "," (List.map hexb h.h_rem)) (String.concat "," (List.map hexb h.h_add))) hs)
+
 (* ---------- main loop ---------- *)
 let run_case line =
   toks := List.filter (fun s -> s <> "") (String.split_on_char ' ' line);
@@ -332,6 +346,7 @@ let run_case line =
   | "push" -> run_push ()
   | "c01" -> run_c01 ()
   | "applyb" -> run_applyb ()
+  | "gen" -> run_gen ()
   | k -> "UNKNOWN " ^ k
 
 let () =
